@@ -29,6 +29,9 @@ type Node struct {
 	Ref     *SimRef
 	Clock   time.Duration // offset of this node's wall clock from the epoch
 	Procs   int
+	// SchedSeed != 0: run the next processes under the parking scheduler
+	SchedSeed uint64
+	LastSched *Sched
 }
 
 var (
@@ -119,6 +122,20 @@ func (n *Node) RunStdin(t *testing.T, stdin []byte, args ...string) CLIResult {
 		if stdin != nil {
 			cmd.SetIn(bytes.NewReader(stdin))
 		}
+		if n.SchedSeed != 0 {
+			sc := NewSched(n.SchedSeed + uint64(n.Procs))
+			n.Objs.Sched = sc
+			n.LastSched = sc
+			done := make(chan struct{})
+			go func() {
+				defer close(done)
+				res.Err = cmd.Execute()
+				*mainDone = true
+			}()
+			sc.Run(done)
+			n.Objs.Sched = nil
+			return
+		}
 		res.Err = cmd.Execute()
 		*mainDone = true
 	})
@@ -141,6 +158,68 @@ func (n *Node) OpenRef() (*RefDB, error) {
 // Refs returns all refs of the node.
 func (n *Node) Refs() (map[string][]byte, error) {
 	db, err := n.OpenRef()
+	if err != nil {
+		return nil, err
+	}
+	defer db.Close()
+	return db.Filter(nil, nil)
+}
+
+// ---- node state capture / restore (crash-state materialisation) ----
+
+type NodeState struct {
+	Objs   map[string][]byte
+	RefDB  []byte
+	Config []byte
+}
+
+func (n *Node) Capture() NodeState {
+	st := NodeState{Objs: n.Objs.Snapshot()}
+	st.RefDB, _ = os.ReadFile(filepath.Join(n.WrglDir, "sqlite.db"))
+	st.Config, _ = os.ReadFile(filepath.Join(n.WrglDir, "config.yaml"))
+	return st
+}
+
+func (n *Node) Restore(st NodeState) {
+	n.Objs.Restore(st.Objs)
+	os.Remove(filepath.Join(n.WrglDir, "sqlite.db-journal"))
+	os.Remove(filepath.Join(n.WrglDir, "sqlite.db-wal"))
+	os.Remove(filepath.Join(n.WrglDir, "sqlite.db-shm"))
+	os.WriteFile(filepath.Join(n.WrglDir, "sqlite.db"), st.RefDB, 0644)
+	if st.Config != nil {
+		os.WriteFile(filepath.Join(n.WrglDir, "config.yaml"), st.Config, 0644)
+	} else {
+		os.Remove(filepath.Join(n.WrglDir, "config.yaml"))
+	}
+}
+
+// StateAt returns the durable state after the first k writes of log (the log
+// slice holds the writes of one operation started from pre).
+func (n *Node) StateAt(pre NodeState, log []WriteRec, k int) NodeState {
+	st := NodeState{Objs: map[string][]byte{}, RefDB: pre.RefDB, Config: pre.Config}
+	for key, v := range pre.Objs {
+		st.Objs[key] = v
+	}
+	ApplyLog(st.Objs, n.Objs.Name, log[:k])
+	for _, r := range log[:k] {
+		if r.Store == n.Ref.Name && r.Op == "refsnap" {
+			st.RefDB = r.Val
+		}
+	}
+	return st
+}
+
+// RefsOf reads all refs out of a captured ref database.
+func RefsOf(refDB []byte) (map[string][]byte, error) {
+	f, err := os.CreateTemp("", "refdb-*")
+	if err != nil {
+		return nil, err
+	}
+	name := f.Name()
+	f.Write(refDB)
+	f.Close()
+	defer os.Remove(name)
+	db, err := OpenRefDB(name)
 	if err != nil {
 		return nil, err
 	}
